@@ -26,6 +26,10 @@ def qpi (s : Stack) : List (Nat × Out) × List (Dest × List SDEntry) × List C
 @[simp] theorem qpi_with_storeLog (s : Stack) (x : List (Bool × SvcKey × Addr)) : qpi { s with storeLog := x } = qpi s := rfl
 @[simp] theorem qpi_with_sendLog (s : Stack) (x : List (Dest × (Bool × Nat))) : qpi { s with sendLog := x } = qpi s := rfl
 @[simp] theorem qpi_with_subLog (s : Stack) (x : List (Addr × Nat × List Eventgroup)) : qpi { s with subLog := x } = qpi s := rfl
+@[simp] theorem qpi_with_subDup (s : Stack) (x : Bool) : qpi { s with subDup := x } = qpi s := rfl
+@[simp] theorem qpi_with_subLost (s : Stack) (x : Bool) : qpi { s with subLost := x } = qpi s := rfl
+@[simp] theorem qpi_with_alive_subLost (s : Stack) (x y : Bool) : qpi { s with alive := x, subLost := y } = qpi s := rfl
+@[simp] theorem qpi_with_subDup_subEntries (s : Stack) (x : Bool) (y : List (Eventgroup × Addr)) : qpi { s with subDup := x, subEntries := y } = qpi s := rfl
 @[simp] theorem qpi_with_findTask (s : Stack) (x : Option Nat) : qpi { s with findTask := x } = qpi s := rfl
 @[simp] theorem qpi_with_alive (s : Stack) (x : Bool) : qpi { s with alive := x } = qpi s := rfl
 @[simp] theorem qpi_with_subTask (s : Stack) (x : Option Nat) : qpi { s with subTask := x } = qpi s := rfl
@@ -189,11 +193,11 @@ theorem qpi_cancelTimer_other (s : Stack) (own : Cb → Bool) (t : Option Nat) (
 @[simp] theorem qpi_subscriberStop (s : Stack) (b : Bool) : qpi (s.subscriberStop b) = qpi s := by
   unfold subscriberStop; split; rfl
   simp only []
-  have h1 : qpi (match ({ s with alive := false } : Stack).subTask with
-      | some tid => { ({ s with alive := false } : Stack).cancelTask (.subscribe, tid) with subTask := none }
-      | none => ({ s with alive := false } : Stack)) = qpi s := by
+  have h1 : qpi (match ({ s with alive := false, subLost := !b } : Stack).subTask with
+      | some tid => { ({ s with alive := false, subLost := !b } : Stack).cancelTask (.subscribe, tid) with subTask := none }
+      | none => ({ s with alive := false, subLost := !b } : Stack)) = qpi s := by
     split
-    · show qpi (({ s with alive := false } : Stack).cancelTask _) = qpi s; rw [qpi_cancelTask]; rfl
+    · show qpi (({ s with alive := false, subLost := !b } : Stack).cancelTask _) = qpi s; rw [qpi_cancelTask]; rfl
     · rfl
   split
   · rw [foldl_pres qpi _ (fun s p => by simp)]; exact h1
